@@ -272,6 +272,17 @@ def symseq(form, with_values):
         from pvc.configdb import SymSeq
         return SymSeq(ex.st, name, form, with_values)
 
+    def _items(n):
+        import pyubx2.ubxtypes_configdb as cdb
+        out = []
+        for nm, (kid, typ) in list(cdb.UBX_CONFIG_DATABASE.items())[:n]:
+            k = nm if form == "name" else kid
+            out.append((k, b"\x00" * int(typ[1:4]) if typ[0] == "X" else (0.0 if typ[0] == "R" else 0)) if with_values else k)
+        return out
+
+    # the replayer has no decoder for a symbolic item list: it tries lists of valid items at the boundary lengths
+    build.native = lambda v: v if isinstance(v, list) else _items(1)
+    build.native_candidates = [_items(0), _items(1), _items(63), _items(64), _items(65)]
     return build
 
 
@@ -300,5 +311,9 @@ def c14_config(arg):
                  ("payload", f"result._payload == {header} + cfg_enc({seqparam}, len({seqparam}))"),
                  ("at-most-64", f"len({seqparam}) <= 64")],
         raises={"UBXMessageError": None, "UBXTypeError": None},
+        # the item limit is 64, not fewer: a refusal that happens before the first item is looked at (the limit check)
+        # implies more than 64 items.  (Refusals from inside the loop - unknown key name, invalid size code - and from
+        # the message constructor are covered by the unconditional raises clause.)
+        ensures_exc=[("limit-is-64", f"reached_loop() or len({seqparam}) > 64")],
         modifies=[],
         loops={1: Loop(index="k", inv=[("items-so-far", f"lis == cfg_enc({seqparam}, k)")], kinds=dict(CFG_LOOP_KINDS))})
